@@ -85,6 +85,23 @@ CHECKS["C17"] = dict(level="model_checking", design="5/C17",
    text="Quick tier: 143 364 sessions (all of <= 3 lines over 52 lines covering declarations, assignments, loops, self-contained functions, heap values, parse failures, compile failures at every statement position, run-time failures after k assignments and inside nested calls), 9 079 injected failures at every instruction of every line of every session of <= 2 lines followed by ten probe lines, and a 33 705-state BFS to depth 5 over a 14-line core alphabet. The shadow heap stays on across lines (a global referring to a released box is a violation).",
    note="trusted: refint session model (Interp::line, effect_limit), fingerprint hooks; calls to functions defined by earlier lines are outside the property; results are not released by the harness in session mode")
 
+# families added after the first version of the table (the measured numbers are in evidence/<id>.json)
+EXTRA = {
+ "C01": " Later additions: composition templates (every ordered triple of 37 one-hole constructs around 10 leaves, top level and function-local), functions defined in nested top-level scopes, and the size ladders of ladders.rs (jump distances, entry offsets, local/global/constant counts and block nesting around every power of two and across the compiler's size limit), each rung compared with the reference interpreter.",
+ "C02": " Later additions: composition templates and all size-ladder programs (static exploration + conformance replay on code of up to 64 KiB). Heights are explored exactly; an instruction reached with more than 64 different heights is reported as lying on a stack-growing cycle.",
+ "C05": " Later additions: calls with as many arguments as parameters across the 255-argument limit.",
+ "C07": " Later additions: block-ended expressions (als, zolang, functie) without parentheses as left/right operand of every operator and as callee in 16 statement and expression contexts.",
+ "C09": " Later additions: functions defined in top-level blocks / branches / loop bodies nested to depth 3 with every subset of levels declaring the same name; slot-number ladders (many globals, nested block locals, each read back).",
+ "C10": " Later additions: constant-pool ladders (ints, floats, strings; indices across 255 and 65 535; the same literals again after the pool has grown; at top level and inside a function).",
+ "C11": " Later additions: condition-driven loops around every body of <= 2 statements, literal-`ja` loops, depth-bounded templates, and jump-distance ladders up to the 64 KiB code limit (differential + static).",
+ "C12": " Later additions: arity ladder (0..12 and around every power of two up to 255 arguments, x 0/1/3 locals, every parameter read back), empty bodies, locals in sibling blocks, frame-size and entry-offset ladders.",
+ "C13": " Later additions: self-consistency where the model is silent (U8): after replacing a character by zero or several characters the printed text, lengte and per-character reads from both ends must describe the same string.",
+ "C16": " Later additions: the batch has 40 programs (values equal under == but not identical, e.g. 0.0 / -0.0, 1 / 1.0); one 6 000-program history; a symbol-table scan for writable statics; violations carry the worker's evaluation log so that replay reproduces.",
+}
+for k, v in EXTRA.items():
+    CHECKS[k]["text"] += v
+CHECKS["C02"]["note"] = CHECKS["C02"]["note"].replace("heights are explored exactly up to 96 slots above the frame base", "heights are explored exactly, at most 64 different heights per instruction")
+
 NOT_YET = {}
 props = [json.loads(l) for l in open("/verif/properties.jsonl")]
 checks = []
